@@ -6,6 +6,7 @@ granularity, (a) cpu.stat conversion, (c) facts about the regenerated Destroy/En
 AddProc evaluated by the kernel.  Tied to pkg/cgroup by the differential on the real cgroup v1
 hierarchy and a real cgroup2 mount.  PROPERTY THEOREMS ONLY (helper lemmas marked private).
 -/
+import GoSandbox.Model.CpusetInherit
 import GoSandbox.Model.Cgroup
 namespace GoSandbox.Props.C20
 open GoSandbox.Model.Cgroup
@@ -304,5 +305,52 @@ theorem C20_gen_v2_create :
 /-- AddProc of the regenerated v1 code writes the pid to every controller of the handle -/
 theorem C20_gen_addproc_all :
     okIs (genAddProcV1 ["/cg/cpu/a", "/cg/mem/a", "/cg/pids/a"]) ["addproc /cg/cpu/a", "addproc /cg/mem/a", "addproc /cg/pids/a"] = true := by decide +kernel
+
+/-! ### limits written stay in force: opening a group again does not touch its cpuset -/
+
+open GoSandbox.Model.CpusetInherit in
+/-- **a cpuset that is set is never overwritten** (hand model, every tree, every depth): when the
+group's own file has a value, `copyCgroupPropertyFromParent` writes nothing and changes nothing — so
+every constructor that opens an existing v1 group (`New` on an existing name, `OpenExisting`, `Nest`)
+leaves a limit written earlier through another handle in force -/
+theorem C20_set_cpuset_is_kept (n : Nat) (fs : Files) (path name c : String)
+    (h : lookup fs (path ++ "/" ++ name) = some c) (hc : blank c = false) :
+    copyH (n + 1) fs path name = some (fs, []) := by
+  simp [copyH, h, hc]
+
+open GoSandbox.Model.CpusetInherit in
+/-- the trees the tie is evaluated on: a group whose cpuset is narrower than its parent's (with and
+without trailing newline, one and two levels deep), an empty new group under a set parent, an empty
+group under an empty parent under a set grandparent, and a group whose files are missing -/
+def cpusetTrees : List (String × Files) := [
+  ("/cs/a", [("/cs/cpuset.cpus", "0-15\n"), ("/cs/cpuset.mems", "0\n"), ("/cs/a/cpuset.cpus", "0\n"), ("/cs/a/cpuset.mems", "0\n")]),
+  ("/cs/a", [("/cs/cpuset.cpus", "0-15"), ("/cs/cpuset.mems", "0-1"), ("/cs/a/cpuset.cpus", "3"), ("/cs/a/cpuset.mems", "1")]),
+  ("/cs/a/b", [("/cs/cpuset.cpus", "0-15\n"), ("/cs/cpuset.mems", "0\n"), ("/cs/a/cpuset.cpus", "0-7\n"), ("/cs/a/cpuset.mems", "0\n"),
+               ("/cs/a/b/cpuset.cpus", "2\n"), ("/cs/a/b/cpuset.mems", "0\n")]),
+  ("/cs/a", [("/cs/cpuset.cpus", "0-15\n"), ("/cs/cpuset.mems", "0\n"), ("/cs/a/cpuset.cpus", "\n"), ("/cs/a/cpuset.mems", "")]),
+  ("/cs/a/b", [("/cs/cpuset.cpus", "0-3\n"), ("/cs/cpuset.mems", "0\n"), ("/cs/a/cpuset.cpus", ""), ("/cs/a/cpuset.mems", "\n"),
+               ("/cs/a/b/cpuset.cpus", ""), ("/cs/a/b/cpuset.mems", "")]),
+  ("/cs/a/b", [("/cs/cpuset.cpus", "0-3\n"), ("/cs/cpuset.mems", "0\n"), ("/cs/a/cpuset.cpus", "1\n"), ("/cs/a/cpuset.mems", "0\n"),
+               ("/cs/a/b/cpuset.cpus", "5\n"), ("/cs/a/b/cpuset.mems", "")]),
+  ("/cs/gone", [("/cs/cpuset.cpus", "0-15\n"), ("/cs/cpuset.mems", "0\n")])]
+
+open GoSandbox.Model.CpusetInherit in
+/-- **tie**: the regenerated `initCpuset` / `copyCgroupPropertyFromParent` compute the hand model on
+those trees (files afterwards, writes made, error) — kernel-evaluated -/
+theorem C20_gen_cpuset_init_matches : cpusetTrees.all (fun t => agrees t.1 t.2) = true := by
+  decide +kernel
+
+open GoSandbox.Model.CpusetInherit in
+/-- and on the trees where the group's values are set, the regenerated code writes nothing at all -/
+theorem C20_gen_reopen_keeps_cpuset :
+    (cpusetTrees.take 3).all (fun t => match genInit t.1 t.2 with
+      | .ok (false, f, w) => f == t.2 && w.isEmpty
+      | _ => false) = true := by
+  decide +kernel
+
+/-- non-vacuity: an empty group under an empty parent inherits the grandparent's value, parent first -/
+example : (GoSandbox.Model.CpusetInherit.initH (cpusetTrees.getD 4 ("", [])).2 "/cs/a/b").map (·.2) =
+    some [("/cs/a/cpuset.cpus", "0-3\n"), ("/cs/a/b/cpuset.cpus", "0-3\n"), ("/cs/a/cpuset.mems", "0\n"), ("/cs/a/b/cpuset.mems", "0\n")] := by
+  decide +kernel
 
 end GoSandbox.Props.C20
